@@ -1,9 +1,365 @@
-/- C16 - model (stub: not built yet) -/
+/-
+C16 - model of the plugin manager's name handling (plugin/manager.go, manager_unix.go,
+plugin.go `NewCLIPlugin`, dir/fs.go `sysFS.SysPath`) and of the verifier's hand-over of the
+signature's `verificationPlugin` attribute to `pluginManager.Get`.
+
+* Go's lexical `path.Clean` / `path.Join` / `filepath.Join` (Unix) on `List Char`.
+* `validatePluginName` in terms of the extracted rule (`Facts.c16SpecialNames`,
+  `Facts.c16ForbiddenChars`); the guards of `Get` / `Uninstall` / `Install` are present in
+  the model exactly when the extracted guard facts say they are present in the code.
+* an abstract file system (a list of nodes with absolute paths) on which the entry points
+  `Get` (+ `GetMetadata` of the returned plugin), `Uninstall`, `Install` (from a file or a
+  directory), `List` and `verifier.Verify` are run; the observation is: error yes/no, the
+  scripts that were executed, the paths whose content differs afterwards, the listing.
+-/
 import NotationModel.Basic
+import NotationModel.Generated.C16
 open Lean
 
 namespace NotationModel.C16
 
-def judge (_ : Json) : Except String Json := .error "C16: model not built yet"
+/-! ### Go's lexical path functions (Unix) -/
+
+/-- `strings.Split(p, "/")` -/
+def splitSlash : Text → List Text
+  | [] => [[]]
+  | c :: cs =>
+    if c = '/' then [] :: splitSlash cs
+    else match splitSlash cs with
+      | [] => [[c]]
+      | h :: t => (c :: h) :: t
+
+/-- `strings.Join(cs, "/")` -/
+def joinSlash : List Text → Text
+  | [] => []
+  | [a] => a
+  | a :: b :: r => a ++ '/' :: joinSlash (b :: r)
+
+def dot : Text := ['.']
+def dotdot : Text := ['.', '.']
+
+/-- one component processed by `Clean`; the stack is kept top-first -/
+def step (rooted : Bool) (stk : List Text) (c : Text) : List Text :=
+  if c = [] ∨ c = dot then stk
+  else if c = dotdot then
+    match stk with
+    | [] => if rooted then [] else [dotdot]
+    | t :: rest => if t = dotdot then dotdot :: t :: rest else rest
+  else c :: stk
+
+/-- the components of `Clean(p)` given the components of `p` -/
+def normComps (rooted : Bool) (cs : List Text) : List Text := (cs.foldl (step rooted) []).reverse
+
+def isRooted (p : Text) : Bool := p.head? == some '/'
+
+/-- `path.Clean` / `filepath.Clean` -/
+def clean (p : Text) : Text :=
+  if p = [] then dot
+  else
+    let cs := normComps (isRooted p) (splitSlash p)
+    if isRooted p then '/' :: joinSlash cs
+    else if cs = [] then dot else joinSlash cs
+
+/-- `path.Join` / `filepath.Join`: empty elements are ignored, the rest is joined and cleaned -/
+def join (elems : List Text) : Text :=
+  match elems.filter (fun e => !e.isEmpty) with
+  | [] => []
+  | ne => clean (joinSlash ne)
+
+/-- the non-empty components of a path (how the model compares paths) -/
+def comps (p : Text) : List Text := (splitSlash p).filter (fun c => !c.isEmpty)
+
+/-- the components of the cleaned plugin root -/
+def rootComps (root : Text) : List Text := normComps (isRooted root) (splitSlash root)
+
+/-- `filepath.Base` for a path that does not end in a separator: the last component -/
+def baseName (p : Text) : Text := (comps p).getLast?.getD []
+
+/-! ### names -/
+
+/-- `validatePluginName`, by the extracted rule:
+`name == s₁ || … || strings.ContainsAny(name, chars)` is the rejection condition -/
+def validName (n : Text) : Bool :=
+  !(Facts.c16SpecialNames.contains n) && !(n.any (fun c => Facts.c16ForbiddenChars.contains c))
+
+/-- the property's notion of an acceptable name: one path component -/
+def singleComponent (n : Text) : Bool :=
+  n != [] && n != dot && n != dotdot && !(n.contains '/') && !(n.contains '\x00')
+
+/-- `binName` (manager_unix.go) -/
+def binName (n : Text) : Text := Facts.c16BinaryPrefix ++ n
+
+/-- `parsePluginName` (manager_unix.go): `strings.CutPrefix`, empty remainder refused -/
+def parsePluginName (f : Text) : Option Text :=
+  if Facts.c16BinaryPrefix.isPrefixOf f then
+    let r := f.drop Facts.c16BinaryPrefix.length
+    if r.isEmpty then none else some r
+  else none
+
+/-- `sysFS.SysPath(items...)` = `filepath.Join(root, items...)` -/
+def sysPath (root : Text) (items : List Text) : Text := join (root :: items)
+
+/-- the executable `CLIManager.Get` looks at: `SysPath(path.Join(name, binName(name)))` -/
+def exePath (root name : Text) : Text := sysPath root [join [name, binName name]]
+
+/-- the directory `Uninstall` / `Install` work on: `SysPath(name)` -/
+def dirPath (root name : Text) : Text := sysPath root [name]
+
+/-! ### the abstract world -/
+
+inductive Op | get | uninstall | install | verify | list
+  deriving DecidableEq, Repr, FromJson, ToJson
+
+/-- `exec`: a plugin script with mode 0755 (records its own path when it runs);
+`file`: a data file, mode 0644; `symdir` / `symfile`: symbolic link to a directory / data
+file that lives elsewhere -/
+inductive Kind | dir | exec | file | symdir | symfile
+  deriving DecidableEq, Repr, FromJson, ToJson
+
+structure Node where
+  path : Text          -- absolute, clean; "/" stands for the case directory of the harness
+  kind : Kind
+  ver : Nat            -- scripts: the version they report is <ver>.0.0; files: content tag; 0 for directories
+  deriving DecidableEq, Repr, FromJson, ToJson
+
+structure Input where
+  op : Op
+  root : Text          -- the plugin root handed to `dir.NewSysFS` (may be unclean: "//", "/./", "x/..", trailing "/")
+  name : Text          -- get / uninstall: the name; verify: the signature's attribute value; install: informative only
+  src : Text           -- install: `CLIInstallOptions.PluginPath`; otherwise ""
+  overwrite : Bool     -- install: `CLIInstallOptions.Overwrite`
+  trusted : Bool       -- verify: the signing chain's root is in the trust store (false: authenticity will fail)
+  fs : List Node       -- the world before the call
+  deriving Repr, FromJson, ToJson
+
+structure Obs where
+  err : Bool               -- the call returned an error
+  executed : List Text     -- scripts that ran (own absolute path), sorted, without duplicates
+  changed : List Text      -- paths added, removed or of different kind / content afterwards, sorted
+  listed : List Text       -- `List`: the reported names, sorted
+  deriving DecidableEq, Repr, FromJson, ToJson
+
+/-- `os.Stat` succeeds with a directory -/
+def Kind.statDir : Kind → Bool | .dir | .symdir => true | _ => false
+/-- `os.Stat` succeeds with a regular file -/
+def Kind.statRegular : Kind → Bool | .exec | .file | .symfile => true | _ => false
+/-- `DirEntry.Info()` (lstat) says regular file -/
+def Kind.lstatRegular : Kind → Bool | .exec | .file => true | _ => false
+
+def samePath (p q : Text) : Bool := comps p == comps q
+/-- `q` is `p` or below `p` -/
+def under (p q : Text) : Bool := (comps p).isPrefixOf (comps q)
+/-- `q` is an entry of the directory with components `pc` -/
+def childOf (pc : List Text) (q : Text) : Bool := comps q == pc ++ [baseName q]
+
+def lookup (fs : List Node) (p : Text) : Option Node := fs.find? (fun n => samePath n.path p)
+
+/-! ### sorting (code point order = Go's string order on valid UTF-8) -/
+
+def leText : Text → Text → Bool
+  | [], _ => true
+  | _ :: _, [] => false
+  | a :: as, b :: bs =>
+    if a.toNat < b.toNat then true else if b.toNat < a.toNat then false else leText as bs
+
+def insertText (a : Text) : List Text → List Text
+  | [] => [a]
+  | b :: r => if leText a b then a :: b :: r else b :: insertText a r
+
+def sortTexts : List Text → List Text
+  | [] => []
+  | a :: r => insertText a (sortTexts r)
+
+/-! ### the entry points -/
+
+def errObs : Obs := { err := true, executed := [], changed := [], listed := [] }
+
+inductive GetErr | invalid | notExist | notRegular
+  deriving DecidableEq, Repr
+
+/-- `CLIManager.Get`: guard, path, `NewCLIPlugin` (stat, regular file) -/
+def mgrGet (fs : List Node) (root name : Text) : Except GetErr Node :=
+  if Facts.c16GetValidatesFirst && !validName name then .error .invalid
+  else match lookup fs (exePath root name) with
+    | none => .error .notExist
+    | some n => if n.kind.statRegular then .ok n else .error .notRegular
+
+/-- scripts run by `GetMetadata` on a plugin object -/
+def ranBy (n : Node) : List Text := if n.kind = .exec then [n.path] else []
+
+/-- the harness' `get`: `Get`, and `GetMetadata` on the plugin it returned -/
+def runGet (i : Input) : Obs :=
+  match mgrGet i.fs i.root i.name with
+  | .error _ => errObs
+  | .ok n => { err := false, executed := ranBy n, changed := [], listed := [] }
+
+/-- `CLIManager.Uninstall` -/
+def runUninstall (i : Input) : Obs :=
+  if Facts.c16UninstallValidatesFirst && !validName i.name then errObs
+  else match lookup i.fs (dirPath i.root i.name) with
+    | none => errObs                                   -- os.Stat fails
+    | some _ =>
+      { err := false, executed := [], listed := [],
+        changed := sortTexts ((i.fs.filter (fun n => under (dirPath i.root i.name) n.path)).map (·.path)) }
+
+def isSpace (c : Char) : Bool :=
+  c = ' ' || c = '\t' || c = '\n' || c = '\x0b' || c = '\x0c' || c = '\r' || c = '\x85' || c = '\xa0'
+
+/-- `verifier.Verify` of a signature that is good in every other respect and carries the
+critical extended attribute `io.cncf.notary.verificationPlugin = name`:
+`getVerificationPlugin` refuses a blank value, then `pluginManager.Get` and `GetMetadata` - all of
+this before the signing chain is looked up in the trust store - then authenticity, and the
+plugin's own verdict (the scripts of the world approve). -/
+def runVerify (i : Input) : Obs :=
+  if i.name.all isSpace then errObs
+  else match mgrGet i.fs i.root i.name with
+    | .error _ => errObs
+    | .ok n => { err := n.kind != .exec || !i.trusted, executed := ranBy n, changed := [], listed := [] }
+
+/-- `CLIManager.List` over `os.DirFS(root)`: real sub-directories of the root -/
+def runList (i : Input) : Obs :=
+  { err := false, executed := [], changed := [],
+    listed := sortTexts ((i.fs.filter (fun n => n.kind = .dir && childOf (rootComps i.root) n.path)).map (fun n => baseName n.path)) }
+
+/-- `parsePluginFromDir` on directory `d`: the executable and the plugin name, or an error -/
+def fromDir (fs : List Node) (d : Text) : Option (Node × Text) :=
+  let cands := fs.filterMap (fun n =>
+    if childOf (comps d) n.path && n.kind.lstatRegular then
+      (parsePluginName (baseName n.path)).map (fun nm => (n, nm))
+    else none)
+  match cands.filter (fun c => c.1.kind = .exec) with
+  | [e] => some e
+  | [] => (match cands with
+      | [c] => some c             -- single non-executable candidate: made executable and tried
+      | _ => none)
+  | _ => none                      -- more than one plugin executable
+
+/-- the executable and the plugin name `Install` derives from `PluginPath` -/
+def installSource (fs : List Node) (src : Text) : Option (Node × Node × Text) :=
+  if src = [] then none
+  else match lookup fs src with
+    | none => none
+    | some s =>
+      if s.kind.statDir then (fromDir fs s.path).map (fun (e, nm) => (s, e, nm))
+      else match parsePluginName (baseName src) with
+        | none => none
+        | some nm => if s.kind = .exec then some (s, s, nm) else none   -- not (a) regular / not executable
+
+/-- files copied by `file.CopyToDir` / `file.CopyDirToDir` into directory `d` -/
+def copied (fs : List Node) (src : Node) (exe : Node) (d : Text) : List Node :=
+  let files := if src.kind.statDir then fs.filter (fun n => childOf (comps src.path) n.path && n.kind.lstatRegular) else [exe]
+  files.map (fun f => { path := d ++ '/' :: baseName f.path, kind := f.kind, ver := f.ver })
+
+def sameContent (a b : Node) : Bool :=
+  samePath a.path b.path && a.kind == b.kind && (a.kind == .dir || a.ver == b.ver)
+
+/-- paths whose state differs between the sub-tree `old` and its replacement `new` -/
+def diffPaths (old new : List Node) : List Text :=
+  (old.filter (fun n => !new.any (sameContent n))).map (·.path) ++
+  (new.filter (fun n => !old.any (fun m => samePath m.path n.path))).map (·.path)
+
+/-- `Install` gives up after having run `ran` -/
+def installFail (ran : List Text) : Obs :=
+  { err := true, executed := sortTexts ran, changed := [], listed := [] }
+
+/-- the tail of `Install`: `Uninstall(name)` (a missing directory is fine), then the copy -/
+def installFinish (i : Input) (src exe : Node) (name : Text) (ran : List Text) : Obs :=
+  if Facts.c16UninstallValidatesFirst && !validName name then installFail ran
+  else
+    let d := dirPath i.root name
+    let old := i.fs.filter (fun n => under d n.path)
+    let new := { path := d, kind := .dir, ver := 0 } :: copied i.fs src exe d
+    { err := false, executed := sortTexts ran, changed := sortTexts (diffPaths old new), listed := [] }
+
+/-- `CLIManager.Install` -/
+def runInstall (i : Input) : Obs :=
+  match installSource i.fs i.src with
+  | none => errObs
+  | some (src, exe, name) =>
+    if Facts.c16InstallValidatesBeforeUse && !validName name then errObs
+    else if exe.kind != .exec then errObs          -- GetMetadata of the new plugin cannot run it
+    else
+      match mgrGet i.fs i.root name with
+      | .error e =>
+        if e != .notExist && !i.overwrite then installFail [exe.path] else installFinish i src exe name [exe.path]
+      | .ok ex =>
+        if ex.kind = .exec then
+          if !i.overwrite && exe.ver ≤ ex.ver then installFail [exe.path, ex.path]   -- equal version / downgrade
+          else installFinish i src exe name [exe.path, ex.path]
+        else if !i.overwrite then installFail [exe.path]      -- the existing plugin cannot be run
+        else installFinish i src exe name [exe.path]
+
+def run (i : Input) : Obs :=
+  match i.op with
+  | .get => runGet i
+  | .uninstall => runUninstall i
+  | .install => runInstall i
+  | .verify => runVerify i
+  | .list => runList i
+
+/-! ### the property over observables -/
+
+/-- the plugin name the call is about (`none`: an install source that carries no name) -/
+def effName (i : Input) : Option Text :=
+  match i.op with
+  | .install => (installSource i.fs i.src).map (·.2.2)
+  | .list => none
+  | _ => some i.name
+
+/-- `p` is `<root>/<name>` or below it -/
+def inPluginDir (root name p : Text) : Bool := (rootComps root ++ [name]).isPrefixOf (comps p)
+
+/-- `p` is exactly `<root>/<name>/notation-<name>` -/
+def isPluginExe (root name p : Text) : Bool := comps p == rootComps root ++ [name, binName name]
+
+def plainChar (c : Char) : Bool := c.isAlphanum || c = '.' || c = '_' || c = '-'
+/-- an ordinary plugin name -/
+def plainName (n : Text) : Bool := n != [] && n != dot && n != dotdot && n.all plainChar
+
+def clauses (i : Input) (o : Obs) : Clauses :=
+  let isList := i.op == .list
+  let nm := effName i
+  [ -- a name that is not one path component is rejected with an error ...
+    ("non_component_name_is_an_error",
+      isList || (match nm with | some n => singleComponent n || o.err | none => o.err)),
+    -- ... and causes no process execution and no file-system change
+    ("non_component_name_has_no_effect",
+      isList || (match nm with
+        | some n => singleComponent n || (o.executed.isEmpty && o.changed.isEmpty)
+        | none => o.executed.isEmpty && o.changed.isEmpty)),
+    -- whatever changes, changes inside <root>/<name>
+    ("changes_only_inside_root_name",
+      match nm with
+      | some n => o.changed.all (inPluginDir i.root n)
+      | none => o.changed.isEmpty),
+    -- whatever runs is <root>/<name>/notation-<name> (or, for install, the install source itself)
+    ("executes_only_root_name_executable",
+      match nm with
+      | some n => o.executed.all (fun p => isPluginExe i.root n p || (i.op == .install && under i.src p))
+      | none => o.executed.isEmpty),
+    -- only install and uninstall change anything, only install / get / verify run anything
+    ("lookup_changes_nothing",
+      (i.op == .install || i.op == .uninstall) || o.changed.isEmpty),
+    ("uninstall_and_list_run_nothing",
+      !(i.op == .uninstall || isList) || o.executed.isEmpty),
+    -- an ordinary installed name is found where it should be (the guard does not over-reject)
+    ("plain_name_reaches_root_name",
+      !((i.op == .get || i.op == .uninstall) && plainName i.name) ||
+        (match i.op with
+         | .get => (match lookup i.fs (exePath i.root i.name) with
+             | some n => !(n.kind == .exec) || (!o.err && o.executed == [n.path])
+             | none => o.err)
+         | _ => (match lookup i.fs (dirPath i.root i.name) with
+             | some n => !o.err && o.changed.contains n.path
+             | none => o.err))),
+    -- listing: exactly the real sub-directories of the root
+    ("list_reports_exactly_real_subdirectories",
+      if isList then
+        !o.err && o.listed == sortTexts ((i.fs.filter (fun n => n.kind = .dir && childOf (rootComps i.root) n.path)).map (fun n => baseName n.path))
+      else o.listed.isEmpty) ]
+
+def Holds (i : Input) (o : Obs) : Bool := (clauses i o).holds
+
+def judge := judgeWith run clauses
 
 end NotationModel.C16
